@@ -61,7 +61,9 @@ def monitor(spec, res, acc):
     resets = {}
     for r in tr.resets:
         resets.setdefault(r["t"], r)
-    fm = p["fm"]
+    ufm = spec.get("fm") or {}        # the user's in-season field management (bund height in m)
+    fm = dict(bunds=bool(ufm.get("bunds", False)), z_bund=float(ufm.get("z_bund", 0.0)) * 1000.0,
+              bund_water=float(ufm.get("bund_water", 0.0)))
     pond_reset = min(float(fm["bund_water"]), float(fm["z_bund"])) \
         if (fm["bunds"] and float(fm["z_bund"]) > 0.001) else 0.0
     prev = None
@@ -117,7 +119,7 @@ def monitor(spec, res, acc):
                                  pond=(prev["pond1"], s["pond0"])))
             else:
                 cov["resets"] += 1
-                if r["off"]:
+                if bool(spec.get("off_season")):      # as the user configured it, not the model's copy of the flag
                     if not (np.array_equal(prev["th1"], s["th0"]) and prev["pond1"] == s["pond0"]):
                         acc.add("reset-offseason",
                                 f"season reset at step {t} changed stored water although the off-season is simulated",
